@@ -1022,23 +1022,24 @@ def c15(work, tier, seed):
     runs = []
     for limit, mate in ((0, 0), (2, 0), (3, 2), (0, 3), (2, 3)) if not quick else ((0, 0), (3, 2), (2, 3)):
         consts = {"MaxDepth": 4 if quick else 5, "Limit": limit, "MateAt": mate, "Callers": "{1, 2}" if quick else "{1, 2, 3}", "Grid": 400 if quick else 4000,
-                  "StoreFirst": "TRUE", "WaitInit": "TRUE"}
+                  "StoreFirst": "TRUE", "WaitInit": "TRUE", "LockLate": "TRUE"}
         cfg = vlib.cfg_text(spec="FairSpec", constants=consts,
                             invariants=["StreamInOrder", "StopsWhenItShould", "NeverPastLimit", "HaltAfterDepth1", "HaltAtLeastReported", "HaltReturnsCompleted"],
                             properties=["HaltedExits", "HaltReturnsEventually"])
         r = vlib.tlc(work, "MCIterative", cfg, workers=8, timeout=3000, heap="8g", name="MCIterative-%d-%d" % (limit, mate), coverage=True)
         vlib.need_tlc_ok(r, "MCIterative limit=%d mate=%d" % (limit, mate))
         rep.add_tlc(r)
-        runs.append(dict({"limit": limit, "mate": mate, "states": r.distinct}, **all_actions_taken(r, "Iterative.tla")))
+        runs.append(dict({"limit": limit, "mate": mate, "states": r.distinct}, **all_actions_taken(r, "Iterative.tla", allow=("HaltLock",))))
     rep.extra["mc_iterative"] = runs
     # non-vacuity: the other order of store / publish, and of wait / quit in Halt, must be rejected
     rejected = []
-    for name, inv in (("StoreFirst", "HaltAtLeastReported"), ("WaitInit", "HaltAfterDepth1")):
-        consts = {"MaxDepth": 3, "Limit": 0, "MateAt": 0, "Callers": "{1, 2}", "Grid": 10, "StoreFirst": "TRUE", "WaitInit": "TRUE"}
+    for name, inv in (("StoreFirst", "HaltAtLeastReported"), ("WaitInit", "HaltAfterDepth1"), ("LockLate", "HaltReturnsEventually")):
+        consts = {"MaxDepth": 3, "Limit": 0, "MateAt": 0, "Callers": "{1, 2}", "Grid": 10, "StoreFirst": "TRUE", "WaitInit": "TRUE", "LockLate": "TRUE"}
         consts[name] = "FALSE"
-        r = vlib.tlc(work, "MCIterative", vlib.cfg_text(spec="Spec", constants=consts, invariants=[inv]), workers=4, timeout=600, heap="4g",
-                     name="MCIterative-dev-" + name)
-        if r.ok or ("Invariant %s is violated" % inv) not in (r.out or ""):
+        live = inv == "HaltReturnsEventually"
+        cfg = vlib.cfg_text(spec="FairSpec" if live else "Spec", constants=consts, invariants=[] if live else [inv], properties=[inv] if live else [])
+        r = vlib.tlc(work, "MCIterative", cfg, workers=4, timeout=600, heap="4g", name="MCIterative-dev-" + name)
+        if r.ok or not (("Invariant %s is violated" % inv) in (r.out or "") or (live and ("Temporal property %s was violated" % inv) in (r.out or ""))):
             raise Inconclusive("Iterative.tla: deviation %s=FALSE is not rejected by %s (vacuous property?)" % (name, inv))
         rejected.append("%s=FALSE violates %s" % (name, inv))
     rep.extra["mc_iterative_deviations_rejected"] = rejected
